@@ -35,9 +35,22 @@ def jsonPrim (p : Prim) (t : JVal) : TRes Value :=
     | .ok b => .ok (.f32 (Strconv.convert Strconv.f64 Strconv.f32 b)) [] | .unmodelled => .unmodelled | _ => .err .syntax)
   | _, _ => .err .syntax
 
+/-- how a leaf of the parsed document is read as a primitive: the only place where the wire
+formats differ once a document has been parsed (JSON: typed tokens; ROR2: raw tokens that are
+percent-decoded and parsed according to the expected type) -/
+structure LeafSem where
+  prim : Prim → JVal → TRes Value
+  /-- `ReadString` (enum symbols) -/
+  str : JVal → TRes Bytes
+
+def jsonSem : LeafSem :=
+  { prim := jsonPrim
+    str := fun t => match t with | .str b => .ok b [] | _ => .err .syntax }
+
 structure TCfg where
   env : Env
   tracker : Tracker
+  sem : LeafSem := jsonSem
 
 def bindT {α β : Type} (r : TRes α) (f : α → List Bytes → TRes β) : TRes β :=
   match r with
@@ -49,7 +62,7 @@ def bindT {α β : Type} (r : TRes α) (f : α → List Bytes → TRes β) : TRe
 mutual
 /-- generated `UnmarshalRestLi` on a parsed JSON value; `top` = the reader is at the input start -/
 def treeRead (c : TCfg) (top : Bool) (scope : List Seg) : Ty → JVal → TRes Value
-  | .prim p, t => jsonPrim p t
+  | .prim p, t => c.sem.prim p t
   | .arr ty, t =>
     (match t with
     | .null => .ok (.arr []) []
@@ -62,13 +75,12 @@ def treeRead (c : TCfg) (top : Bool) (scope : List Seg) : Ty → JVal → TRes V
     | _ => .err .syntax)
   | .ref n, t =>
     match c.env.find n with
-    | some (.typeref p) => jsonPrim p t
+    | some (.typeref p) => c.sem.prim p t
     | some (.enum syms) =>
-      (match t with
-      | .str b => .ok (.enum (match syms.idxOf? b with | some i => (i : Int) + 1 | none => 0)) []
-      | _ => .err .syntax)
+      bindT (c.sem.str t) (fun b m =>
+        .ok (.enum (match syms.idxOf? b with | some i => (i : Int) + 1 | none => 0)) m)
     | some (.fixed size) =>
-      bindT (jsonPrim .bytes t) (fun v m => match v with
+      bindT (c.sem.prim .bytes t) (fun v m => match v with
         | .bytes b => if b.length = size then .ok (.fixed b) m else .err .fixed
         | _ => .err .syntax)
     | some (.record _ own) =>
